@@ -288,7 +288,8 @@ Result execute(const Plan &p) {
         if (model && nlevels >= 1) {
             res.counts["model_problems"]++;
             // Richardson is only promised to converge at the cycle's contraction rate, the Krylov methods to reach the tolerance
-            if (solver == 7 ? !(resid < 0.1) : (!(resid < tol) || iters >= 100)) res.fail(sig("model-convergence", solver == 7 ? "richardson-converges" : "converges-within-default-budget", fmt("%zu iterations, reported residual %.3g (n=%ld, %zu levels, nt %d)", iters, resid, n, nlevels, nt)));
+            if (solver == 7 ? !(resid < 0.1) : (!(resid < tol) || iters >= 100)) { Violation mv = sig("model-convergence", solver == 7 ? "richardson-converges" : "converges-within-default-budget", fmt("%zu iterations, reported residual %.3g (n=%ld, %zu levels, nt %d)", iters, resid, n, nlevels, nt));
+                mv.add("outcome", std::isfinite(resid) ? "finite" : "nonfinite"); res.fail(mv); }
         }
     } else if (!exc.empty()) { res.counts["solver_threw"]++; if (model) res.fail(sig("model-convergence", "threw-on-model-problem", exc)); }
     res.nontrivial = iters >= 1 && exc.empty();
